@@ -978,6 +978,9 @@ func c15Worker(w *W) {
 				continue
 			}
 			switch {
+			case c.errClass == "buffer-too-small":
+				// a lower bound on the queue size is the library's choice, not part of the statement: totality only
+				w.Distinct("totality|buffer-too-small")
 			case c.errClass != "" && err == nil:
 				w.Violate("C15:error-not-reported:"+c.errClass, fmt.Sprintf("Refresh returned nil for a configuration with %s (%s)", c.errClass, c.errDetail), cs)
 			case c.errClass == "" && err != nil:
@@ -1075,7 +1078,7 @@ func init() {
 	register(&Prop{
 		ID: "C15", Level: "exploration", MinDistinct: 40, Worker: c15Worker,
 		Rule: "abstract configuration trees over all registered plugin types (appenders Discard, Console, File, RollingFile + recording and probe plugins; loggers Logger, AsyncLogger, Discard, Console, File, RollingFile; layouts; a probe carrying an attribute of every injectable kind/width and single, defaulted-list and optional-list elements) with each attribute independently configured or left to its default, 1/6 of the configured values routed through ${property}; " +
-			"each tree is rendered twice to a flat map with per-key random spelling (camel/kebab/snake/Capitalised) and a per-plugin choice of flat keys vs an inline 'name!' expression. 2/5 of the trees carry one classified error (ill-typed or out-of-width value per kind, unknown plugin/layout type, missing required attribute/element, dangling reference, missing ${} target, bufferSize<100) and must be rejected; the others must be accepted and every injected field (read from the live plugins by reflection and from the probe) must equal configured-else-default. " +
+			"each tree is rendered twice to a flat map with per-key random spelling (camel/kebab/snake/Capitalised) and a per-plugin choice of flat keys vs an inline 'name!' expression. 2/5 of the trees carry one classified error (ill-typed or out-of-width value per kind, unknown plugin/layout type, missing required attribute/element, dangling reference, missing ${} target) and must be rejected (a bufferSize below 100 is generated too but judged for totality only); the others must be accepted and every injected field (read from the live plugins by reflection and from the probe) must equal configured-else-default. " +
 			"A second worker kind applies one random key/value mutation to each rendering and judges totality only (returns, no panic, Destroy works). Non-trivial/distinct = distinct (set of plugin types, inline used, properties used) classes of accepted configurations + error classes rejected + (mutation operator, outcome) pairs.",
 		Assumptions: []string{"conflicting duplicate spellings of one key, whitespace-padded values and plugin names containing '_'/'-' are not generated", "mutated variants never carry an async buffer size above 5000 (multi-gigabyte queue allocation is resource exhaustion, outside the statement)", "numeric values are rendered in decimal or 0x-hex only"},
 		Run: func(d *D) {
